@@ -12,9 +12,48 @@ from pharmpy.modeling import load_dataset
 from .model_entry import ModelEntry
 
 
+# Mappings for which the insertion order of the keys has no meaning
+_UNORDERED_MAPPINGS = (
+    'tool_options',
+    'dependent_variables',
+    'observation_transformation',
+    'categories',
+)
+
+
+def _canonicalize(obj):
+    # Bring the dict form of a model into an order that does not depend on how the model was
+    # built: the compartments and flows of a compartmental system are listed in the insertion
+    # order of the graph, which differs between equal systems, and some mappings keep the
+    # insertion order of their keys.
+    if isinstance(obj, dict):
+        d = {}
+        for key, value in obj.items():
+            value = _canonicalize(value)
+            if key in _UNORDERED_MAPPINGS and isinstance(value, dict):
+                value = dict(sorted(value.items()))
+            d[key] = value
+        if d.get('class') == 'CompartmentalSystem':
+            comps = d['compartments']
+            sortkeys = [
+                (comp['class'] != 'Output', comp.get('name', ''), json.dumps(comp)) for comp in comps
+            ]
+            order = sorted(range(len(comps)), key=lambda i: sortkeys[i])
+            new_index = {old: new for new, old in enumerate(order)}
+            d['compartments'] = [comps[i] for i in order]
+            d['rates'] = sorted(
+                [new_index[from_n], new_index[to_n], rate] for from_n, to_n, rate in d['rates']
+            )
+        return d
+    elif isinstance(obj, (list, tuple)):
+        return [_canonicalize(e) for e in obj]
+    else:
+        return obj
+
+
 def _encode(obj):
     # Encode a model object into a bytes string
-    d = obj.to_dict()
+    d = _canonicalize(obj.to_dict())
     js = json.dumps(d)
     enc = js.encode('utf-8')
     return enc
